@@ -12,10 +12,10 @@ VER="$(cd "$(dirname "$0")/.." && pwd)"
 git -C /repo worktree remove --force "$WT" 2>/dev/null
 git -C /repo worktree add --detach -q "$WT" HEAD || exit 2
 cd "$WT" || exit 2
-PYTHONPATH="$WT" timeout 180 /venv/bin/python "$OUT/demo.py" > "$WT/demo_clean.log" 2>&1; RC_CLEAN=$?
+PYTHONPATH="$WT:$VER/shims" timeout 180 /venv/bin/python "$OUT/demo.py" > "$WT/demo_clean.log" 2>&1; RC_CLEAN=$?
 if ! git apply --check "$OUT/patch.diff" 2>/dev/null; then echo "patch does not apply"; APPLY=fail; else git apply "$OUT/patch.diff"; APPLY=ok; fi
 FILES="$(git diff --name-only | grep '\.py$' | tr '\n' ' ')"
-PYTHONPATH="$WT" timeout 180 /venv/bin/python "$OUT/demo.py" > "$WT/demo_patched.log" 2>&1; RC_PATCHED=$?
+PYTHONPATH="$WT:$VER/shims" timeout 180 /venv/bin/python "$OUT/demo.py" > "$WT/demo_patched.log" 2>&1; RC_PATCHED=$?
 LINT=ok
 if [ -n "$FILES" ]; then
   /venv/bin/python -m ruff check $FILES >/dev/null 2>&1 || LINT="ruff-check-fails"
